@@ -75,7 +75,7 @@ CHECKS = {
         note='Trusted: harness/gen/programs.py renderer, CPython as the reference semantics of the generated program, harness/canon.py. Programs outside the generated grammar are not covered.'),
     'C12': dict(
         technique='property-based per-output validation of generated programs: configuration x option point -> emitted module is imported from a scratch file and its fixture compared with the input by canonical form; value-to-expression round trip by eval',
-        text='For generated configurations (Config/Partial/ArgFactory, positional arguments, tags, shared nodes, containers, named tuples and sets, symbol/enum (also nested and same-named enums)/bytes/complex/special-float leaves, tuple dict keys) and option points (new_codegen or auto_config_codegen, generated sub_fixtures, max_expression_complexity, include_history) plus two targeted scenarios (sub-fixture parameter/local name collision; variable named like a module that is only referenced by a leaf symbol), the generator must raise or emit text that compiles, imports and reproduces the configuration exactly; convert_py_val_to_cst output must eval to an equal value of the same type. Sixteen buckets from ten root causes in the code generators are listed known findings, each keyed by an input-feature predicate; cases with two such features are skipped.',
+        text='For generated configurations (Config/Partial/ArgFactory, positional arguments, tags, shared nodes, containers, named tuples and sets, symbol/enum (also nested and same-named enums)/bytes/complex/special-float leaves, tuple dict keys) and option points (new_codegen or auto_config_codegen, generated sub_fixtures, max_expression_complexity, include_history) plus two targeted scenarios (sub-fixture parameter/local name collision; variable named like a module that is only referenced by a leaf symbol), the generator must raise or emit text that compiles, imports and reproduces the configuration exactly; convert_py_val_to_cst output must eval to an equal value of the same type. Twenty-three buckets from twelve root causes in the code generators are listed known findings, each keyed by an input-feature predicate; cases with two such features are skipped.',
         note='Trusted: harness/canon.py, feature predicates in props/c12.py, CPython import/exec of the emitted module.'),
     'C13': dict(
         technique='property-based differential testing of generated programs: diff -> emitted fiddler (exec) versus apply_diff, over generated and template diffs and all four option points',
